@@ -1,5 +1,6 @@
 """C20 - tolerance-limit factors (ksingle, kdouble) and order statistics meet their definitions."""
 import math
+import random
 from fractions import Fraction
 
 import numpy as np
@@ -8,7 +9,8 @@ from hypothesis import strategies as st
 from vlib.core import Part
 
 PROPERTY = "C20"
-RULE = ("ksingle/kdouble: p, c logit-uniform over the calibrated domain [1e-3, 1-1e-5] (plus the "
+RULE = ("every case is built from one hypothesis-drawn 48-bit seed by uniform draws (hypothesis' "
+        "numeric strategies over-sample small values); ksingle/kdouble: p, c logit-uniform over the calibrated domain [1e-3, 1-1e-5] (plus the "
         "textbook levels and the domain corners), n log-uniform 2..2000; shape: the same over "
         "[1e-4, 1-1e-6] and n up to 1e6 with one argument moved by 1e-3..4 logits; orderstats: "
         "r 1..50, n log-uniform r..5000 (or 1-p scaled to r/n), p, c logit-uniform, textbook, "
@@ -117,38 +119,69 @@ def oracle_ksingle(case, R):
                     f"{tag} < z_p={float(zp)!r}")
 
 
-def _u(draw, a, b):
-    """uniform on [a, b] from an integer draw (st.floats over-samples the end points)"""
-    return a + (b - a) * draw(st.integers(0, 2 ** 40)) / 2 ** 40
+class _D:
+    """deterministic uniform draws from one hypothesis-drawn integer seed.
+
+    Hypothesis' own numeric strategies favour small / simple values so strongly
+    (two thirds of the sample sizes came out as 2) that the domain was covered
+    badly; corner values are produced explicitly by the generators instead."""
+
+    def __init__(self, seed):
+        self.r = random.Random(int(seed))
+
+    def u(self, a, b):
+        return a + (b - a) * self.r.random()
+
+    def int(self, a, b):
+        return a + min(int(self.r.random() * (b - a + 1)), b - a)
+
+    def pick(self, seq):
+        return seq[min(int(self.r.random() * len(seq)), len(seq) - 1)]
+
+    def bool(self):
+        return self.r.random() < 0.5
 
 
-def _logit_float(draw, lo, hi):
-    x = _u(draw, math.log(lo / (1 - lo)), math.log(hi / (1 - hi)))
+SEEDS = st.integers(0, 2 ** 48 - 1)
+
+
+def _seeded(build):
+    def strategy():
+        return SEEDS.map(lambda s: build(_D(s)))
+    return strategy
+
+
+def _logit_float(d, lo, hi):
+    x = d.u(math.log(lo / (1 - lo)), math.log(hi / (1 - hi)))
     v = 1 / (1 + math.exp(-x))
     return min(max(v, lo), hi)
 
 
-def _level(draw, lo, hi, text):
-    kind = draw(st.sampled_from(["u", "u", "u", "u", "text", "corner", "half"]))
+def _level(d, lo, hi, text):
+    kind = d.pick(["u", "u", "u", "u", "text", "corner", "half"])
     if kind == "u":
-        return _logit_float(draw, lo, hi)
+        return _logit_float(d, lo, hi)
     if kind == "text":
-        return draw(st.sampled_from(text))
+        return d.pick(text)
     if kind == "corner":
-        return draw(st.sampled_from([lo, hi, 0.5, math.nextafter(0.5, 1), 0.25, 0.75]))
-    return min(max(0.5 + draw(st.floats(-0.05, 0.05)), lo), hi)
+        return d.pick([lo, hi, 0.5, math.nextafter(0.5, 1), 0.25, 0.75])
+    # around one half, from 1e-16 away (k changes sign there) to 0.05 away
+    off = 10.0 ** d.u(-16, -1.3) * (1 if d.bool() else -1)
+    return min(max(0.5 + off, lo), hi)
 
 
-def _n(draw, hi=NMAX):
-    if draw(st.integers(0, 5)) == 0:
-        return draw(st.sampled_from([2, 3, 4, 5, 10, 21, 100, 1000, hi]))
-    return int(round(math.exp(_u(draw, math.log(2), math.log(hi)))))
+def _n(d, hi=NMAX):
+    if d.int(0, 5) == 0:
+        return d.pick([2, 3, 4, 5, 10, 21, 100, 1000, hi])
+    return int(round(math.exp(d.u(math.log(2), math.log(hi)))))
 
 
-@st.composite
-def ks_cases(draw):
-    return {"p": _level(draw, LO, HI, TEXT_P), "c": _level(draw, LO, HI, TEXT_C),
-            "n": min(max(_n(draw), 2), NMAX)}
+def _ks_cases(d):
+    if d.int(0, 39) == 0:
+        # the one spot where the dependency is coarse (see TOL_K): nct.ppf(c, 1, 0), c ~ 0.5
+        return {"p": 0.5, "c": 0.5 + 10.0 ** d.u(-16, -7) * (1 if d.bool() else -1), "n": 2}
+    return {"p": _level(d, LO, HI, TEXT_P), "c": _level(d, LO, HI, TEXT_C),
+            "n": min(max(_n(d), 2), NMAX)}
 
 
 # ------------------------------------------------------------------ kdouble
@@ -187,12 +220,11 @@ def oracle_kdouble(case, R):
                     f"{tag} < z_(1+p)/2={float(z2)!r}")
 
 
-@st.composite
-def kd_cases(draw):
-    n = _n(draw)
-    if draw(st.integers(0, 30)) == 0:
-        n = draw(st.sampled_from([10 ** 4, 10 ** 5, 10 ** 6]))
-    return {"p": _level(draw, XLO, XHI, TEXT_P), "c": _level(draw, XLO, XHI, TEXT_C),
+def _kd_cases(d):
+    n = _n(d)
+    if d.int(0, 30) == 0:
+        n = d.pick([10 ** 4, 10 ** 5, 10 ** 6])
+    return {"p": _level(d, XLO, XHI, TEXT_P), "c": _level(d, XLO, XHI, TEXT_C),
             "n": max(n, 2)}
 
 
@@ -281,16 +313,15 @@ def oracle_shape(case, R):
         R.label("mirror_checked")
 
 
-@st.composite
-def shape_cases(draw):
-    if draw(st.booleans()):
+def _shape_cases(d):
+    if d.bool():
         lo, hi, nhi = LO, HI, NMAX
     else:
         lo, hi, nhi = XLO, XHI, 10 ** 5
-    return {"p": _level(draw, lo, hi, TEXT_P), "c": _level(draw, lo, hi, TEXT_C),
-            "n": max(2, _n(draw, nhi)),
-            "move": draw(st.sampled_from(["p", "c"])),
-            "dlogit": math.exp(_u(draw, math.log(1e-3), math.log(4.0)))}
+    return {"p": _level(d, lo, hi, TEXT_P), "c": _level(d, lo, hi, TEXT_C),
+            "n": max(2, _n(d, nhi)),
+            "move": d.pick(["p", "c"]),
+            "dlogit": math.exp(d.u(math.log(1e-3), math.log(4.0)))}
 
 
 # ------------------------------------------------------------------ order statistics
@@ -463,54 +494,52 @@ def oracle_n_at_r(case, R):
     check_size(R, p, c, r, ng, f"{base} = {ng}")
 
 
-def _dyadic(draw, lo, hi):
-    m = draw(st.integers(1, 6))
-    j = draw(st.integers(1, 2 ** m - 1))
+def _dyadic(d, lo, hi):
+    m = d.int(1, 6)
+    j = d.int(1, 2 ** m - 1)
     return min(max(j / 2 ** m, lo), hi)
 
 
-@st.composite
-def os_cases(draw):
+def _os_cases(d):
     SR = _sr()
-    kind = draw(st.sampled_from(["generic", "generic", "scaled", "scaled", "textbook",
-                                 "dyadic", "tie"]))
-    r = draw(st.integers(1, 50)) if draw(st.booleans()) else draw(st.integers(1, 6))
+    kind = d.pick(["generic", "generic", "scaled", "scaled", "textbook",
+                                 "dyadic", "tie"])
+    r = d.int(1, 50) if d.bool() else d.int(1, 6)
     if kind == "tie":
         # c := exact tail (representable): the equality case of the definition
-        m = draw(st.integers(1, 4))
-        p = draw(st.integers(1, 2 ** m - 1)) / 2 ** m
-        n = draw(st.integers(1, 52 // m))
-        r = draw(st.integers(1, n))
+        m = d.int(1, 4)
+        p = d.int(1, 2 ** m - 1) / 2 ** m
+        n = d.int(1, 52 // m)
+        r = d.int(1, n)
         t = SR.tail_ge(n, r, p)
         c = float(t)
         if Fraction(c) != t or not (XLO <= c <= XHI):
             kind = "dyadic"
-            c = _dyadic(draw, XLO, XHI)
+            c = _dyadic(d, XLO, XHI)
         return {"kind": kind, "p": p, "c": c, "n": n, "r": r}
-    n = max(r, int(round(math.exp(_u(draw, math.log(r), math.log(5000))))))
+    n = max(r, int(round(math.exp(d.u(math.log(r), math.log(5000))))))
     if kind == "generic":
-        p = _logit_float(draw, XLO, XHI)
-        c = _level(draw, XLO, XHI, TEXT_C)
+        p = _logit_float(d, XLO, XHI)
+        c = _level(d, XLO, XHI, TEXT_C)
     elif kind == "scaled":
         # 1-p near r/n: the interesting band where the answers are neither 0 nor n
-        u = math.exp(_u(draw, math.log(0.3), math.log(3.0)))
+        u = math.exp(d.u(math.log(0.3), math.log(3.0)))
         p = min(max(1 - r * u / n, XLO), XHI)
-        c = _level(draw, XLO, XHI, TEXT_C)
+        c = _level(d, XLO, XHI, TEXT_C)
     elif kind == "textbook":
-        p = draw(st.sampled_from(TEXT_P))
-        c = draw(st.sampled_from(TEXT_C))
+        p = d.pick(TEXT_P)
+        c = d.pick(TEXT_C)
     else:
-        p = _dyadic(draw, XLO, XHI)
-        c = _dyadic(draw, XLO, XHI)
+        p = _dyadic(d, XLO, XHI)
+        c = _dyadic(d, XLO, XHI)
     return {"kind": kind, "p": p, "c": c, "n": n, "r": r}
 
 
-@st.composite
-def n_at_r_cases(draw):
-    r = draw(st.integers(1, 8))
-    p = _dyadic(draw, XLO, XHI) if draw(st.booleans()) else _logit_float(draw, XLO, 0.9)
+def _n_at_r_cases(d):
+    r = d.int(1, 8)
+    p = _dyadic(d, XLO, XHI) if d.bool() else _logit_float(d, XLO, 0.9)
     top = float(Fraction(1 - Fraction(p)) ** r)
-    c = top * (_u(draw, 0.05, 0.999) if draw(st.booleans()) else 1.0)
+    c = top * (d.u(0.05, 0.999) if d.bool() else 1.0)
     c = min(max(c, 1e-12), XHI)
     return {"p": p, "c": c, "r": r}
 
@@ -601,19 +630,18 @@ def oracle_broadcast(case, R):
                     f"{dict(zip(keys, vals))} at {idx}: {got!r} vs scalar call {want!r}")
 
 
-@st.composite
-def bc_cases(draw):
-    layout = draw(st.sampled_from(["row_col", "row_col_c", "vec", "scalar", "vec_n"]))
-    nrow = draw(st.integers(1, 3))
-    ncol = draw(st.integers(1, 3))
+def _bc_cases(d):
+    layout = d.pick(["row_col", "row_col_c", "vec", "scalar", "vec_n"])
+    nrow = d.int(1, 3)
+    ncol = d.int(1, 3)
 
     def lev(text):
-        return _level(draw, LO, HI, text)
+        return _level(d, LO, HI, text)
 
     def nn():
-        return min(max(_n(draw, 600), 2), 600)
+        return min(max(_n(d, 600), 2), 600)
 
-    rr = lambda: draw(st.integers(1, 5))          # noqa: E731
+    rr = lambda: d.int(1, 5)          # noqa: E731
     if layout == "scalar":
         p, c, n, r = lev(TEXT_P), lev(TEXT_C), nn(), rr()
     elif layout == "vec":
@@ -633,15 +661,15 @@ def bc_cases(draw):
     # ranks must not exceed any sample size they are paired with
     nmin = int(np.min(n))
     r = (np.minimum(np.asarray(r), nmin)).tolist()
-    return {"p": p, "c": c, "n": n, "r": r, "as_array": draw(st.booleans())}
+    return {"p": p, "c": c, "n": n, "r": r, "as_array": d.bool()}
 
 
 PARTS = [
-    Part("ksingle", oracle_ksingle, strategy=ks_cases, quick=(9, 110), thorough=(16, 1000)),
-    Part("kdouble", oracle_kdouble, strategy=kd_cases, quick=(1, 450), thorough=(8, 900)),
-    Part("shape", oracle_shape, strategy=shape_cases, quick=(2, 400), thorough=(8, 1600)),
-    Part("orderstats", oracle_orderstats, strategy=os_cases, quick=(3, 300), thorough=(16, 900)),
-    Part("broadcast", oracle_broadcast, strategy=bc_cases, quick=(1, 150), thorough=(4, 600)),
+    Part("ksingle", oracle_ksingle, strategy=_seeded(_ks_cases), quick=(9, 120), thorough=(16, 1000)),
+    Part("kdouble", oracle_kdouble, strategy=_seeded(_kd_cases), quick=(1, 450), thorough=(8, 900)),
+    Part("shape", oracle_shape, strategy=_seeded(_shape_cases), quick=(2, 400), thorough=(8, 1600)),
+    Part("orderstats", oracle_orderstats, strategy=_seeded(_os_cases), quick=(3, 300), thorough=(16, 900)),
+    Part("broadcast", oracle_broadcast, strategy=_seeded(_bc_cases), quick=(1, 150), thorough=(4, 600)),
     # (1-p)^r >= c: order_stats('n') raises ValueError on the unchanged tree (reported defect)
-    Part("os_n_at_r", oracle_n_at_r, strategy=n_at_r_cases, quick=(1, 60), thorough=(1, 500)),
+    Part("os_n_at_r", oracle_n_at_r, strategy=_seeded(_n_at_r_cases), quick=(1, 60), thorough=(1, 500)),
 ]
